@@ -5,7 +5,7 @@ import ast
 from typing import Dict, List, Optional, Set
 
 from ..collect import callee_is, run_paths
-from ..common import nested_fn, passed_as_argument, defs_of, calls_in, construct, where
+from ..common import with_helpers, nested_fn, passed_as_argument, defs_of, calls_in, construct, where
 from ..flow import Value, show, subterms
 from ..loader import AnalysisError, ClassInfo, FuncInfo, Program, walk_shallow
 from ..report import Report
@@ -335,7 +335,7 @@ def run(p: Program, rep: Report, tier: str) -> None:
         else:
             rep.violation("R20.5", construct(view, text=f"return {txt}"), where(view), f"{side}: the view decorator does not return handler(request, next_call) unchanged")
         rr = sm.functions.get("request_response")
-        rin = rr.nested.get(side) if rr else None
+        rin = nested_fn(rr, side)
         if rin is None:
             raise AnalysisError(f"{side} request_response.{side} vanished")
         rep.analysed(rin.fq)
@@ -370,8 +370,8 @@ def run(p: Program, rep: Report, tier: str) -> None:
     if lh is None or afa is None:
         raise AnalysisError("BaseResponse.list_headers / asgi NextResponse.from_app vanished")
     rep.analysed(lh.fq)
-    enc = codecs_in(lh, "encode")
-    decs = [(c, cd) for f in [afa] + list(afa.nested.values()) for c, cd in codecs_in(f, "decode")]
+    enc = [(c, cd) for f in with_helpers(p, lh) for c, cd in codecs_in(f, "encode")]
+    decs = [(c, cd) for f0 in [afa] + list(afa.nested.values()) for f in with_helpers(p, f0) for c, cd in codecs_in(f, "decode")]
     if len(enc) < 2 or len(decs) < 2:
         rep.undecide("R20.6", f"expected the name/value encode calls of list_headers and the name/value decode calls of from_app, found {len(enc)}/{len(decs)}")
     for what, fn_, items in (("list_headers(as_bytes=True) encodes", lh, enc), ("asgi from_app decodes", afa, decs)):
